@@ -291,6 +291,9 @@ def member_sources(style: str, u: str):
                  [(t("1S"), f"m1{u}", "description", None), (t("1D"), f"m1{u}", "description", None)] + ([(t("1a"), f"m1{u}", "param", "a"), (t("1r"), f"m1{u}", "result", rname)] if structured else []))
     out["m2"] = (f"    def m2{u}(self, a: int, b: int) -> int:\n" + d(t("2S") + ".", t("2D"), 8, params=[("a", "int", t("2a")), ("b", "int", t("2b"))]) + "        return a\n",
                  [(t("2S"), f"m2{u}", "description", None), (t("2D"), f"m2{u}", "description", None)] + ([(t("2a"), f"m2{u}", "param", "a"), (t("2b"), f"m2{u}", "param", "b")] if structured else []))
+    # a method whose NAME merely ends in __init__ is an ordinary method: its own docstring documents its parameters
+    out["xi"] = (f"    def x{u}__init__(self, p: int) -> int:\n" + d(t("5S") + ".", t("5D"), 8, params=[("p", "int", t("5p"))]) + "        return p\n",
+                 [(t("5S"), f"x{u}__init__", "description", None), (t("5D"), f"x{u}__init__", "description", None)] + ([(t("5p"), f"x{u}__init__", "param", "p")] if structured else []))
     out["pr"] = (f"    @property\n    def pr{u}(self) -> int:\n" + d(t("3S") + ".", t("3D"), 8) + "        return 1\n", [(t("3S"), f"pr{u}", "description", None), (t("3D"), f"pr{u}", "description", None)])
     out["st"] = (f"    @staticmethod\n    def st{u}(a: int) -> int:\n" + d(t("4S") + ".", t("4D"), 8, params=[("a", "int", t("4a"))]) + "        return a\n",
                  [(t("4S"), f"st{u}", "description", None), (t("4D"), f"st{u}", "description", None)] + ([(t("4a"), f"st{u}", "param", "a")] if structured else []))
@@ -309,8 +312,8 @@ def part_b(rep: Report, tier: str) -> None:
             src = f'"""TKMOD{u} module summary.\n\nTKMOD{u} second paragraph.\n"""\n\n\n' + "\n\n".join(ds[n][0] for n in perm)
             exp = [e for n in perm for e in ds[n][1]]
             units.append((f"top:{'>'.join(perm)}", style, f"d{u}", src, exp, f"TKMOD{u}"))
-        mnames = ["m1", "m2", "pr", "st"]
-        mperms = list(itertools.permutations(mnames, 3)) if tier == "thorough" else list(itertools.permutations(mnames[:3]))
+        mnames = ["m1", "m2", "xi", "pr", "st"]
+        mperms = list(itertools.permutations(mnames, 3)) if tier == "thorough" else list(itertools.permutations(mnames[:4], 3))
         for perm in mperms:
             u = f"{next(uid):05d}"
             ms = member_sources(style, u)
